@@ -612,6 +612,7 @@ let codecrt_suite () =
       if n > 2 && line.[0] = 'C' then begin
         match split_sp line with
         | [_; "Q"; ty; input] -> pending := Some (`Ctor (nn ty, bytes_of_hex input))
+        | [_; "G"; b; b'] -> pending := Some (`Ign (bytes_of_hex b, bytes_of_hex b'))
         | _ :: m :: c :: txid :: specs ->
           let attrs = List.filter_map (fun sp ->
               if sp = "-" then None else
@@ -637,6 +638,29 @@ let codecrt_suite () =
           let body = String.sub line 2 (n - 2) in
           let ok = body = "REJ" || (String.length body > 5 && String.sub body (String.length body - 4) 4 = "rt=1") in
           emit (Printf.sprintf "S %d %d C01 %s" i (if ok then 1 else 0) (if int_of_n (ctor_class cty input) = 1 then "quoted-ctor-noncanonical" else "-"));
+          last := None;
+          pending := None
+        | Some (`Ign (b, b')) ->
+          let i = !idx in incr idx;
+          let render bytes = match decode_typed bytes with
+            | DOk (size, attrs) ->
+              Printf.sprintf "%d %s" (int_of_n size) (if attrs = [] then "-" else String.concat " " (List.map (fun (ty, r) ->
+                  Printf.sprintf "%d:%s" (int_of_n ty) (match r with VOk a -> render_aval a | VErr -> "ERR" | VPanic -> "PANIC" | VUnmodelled -> "UNMODELLED")) attrs))
+            | DErr -> "DECERR" | DPanic -> "DECPANIC" | DUnmodelled -> "UNMODELLED" in
+          let ra = render b and rb = render b' in
+          let unmodelled s = let k = String.length "UNMODELLED" in
+            let rec go j = j + k <= String.length s && (String.sub s j k = "UNMODELLED" || go (j + 1)) in go 0 in
+          if unmodelled ra || unmodelled rb then emit (Printf.sprintf "M %d UNMODELLED" i)
+          else emit (Printf.sprintf "M %d G %s|%s" i ra rb);
+          (* C02, last sentence, on the implementation: the two decodes rendered by the harness are the same *)
+          let body = String.sub line 2 (n - 2) in
+          let impl_same = (match String.index_opt body '|' with
+              | Some k -> String.sub body 2 (k - 2) = String.sub body (k + 1) (String.length body - k - 1)
+              | None -> false) in
+          (match int_of_n (monitor_C02ign b b' impl_same) with
+           | 0 -> ()                                                   (* not a legal perturbation: not judged *)
+           | 1 -> emit (Printf.sprintf "S %d 1 C02ign -" i)
+           | _ -> emit (Printf.sprintf "S %d 0 C02ign -" i));
           last := None;
           pending := None
         | Some (`Msg tm) ->
